@@ -45,6 +45,22 @@ Theorem C13_trim_asis_refuted : exists (u u' : ust) i, WF u /\ trim_asis (Some i
 Proof. exact trim_asis_refuted. Qed.
 Print Assumptions C13_trim_asis_refuted.
 
+(* the repair of the cluster labels inside split (TopUp.v): with at least 2 n_min points in the ellipsoid being split (which
+   the may-split flag guarantees, C13_wf) both clusters end with at least n_min members, whatever the mixture fit and the
+   ranking; nothing is touched when both clusters are large enough *)
+Require Import NV.TopUp NV.TopUpProofs.
+Theorem C13_topup : forall n_min rank_other l, 2 * n_min <= length l -> Permutation rank_other (others (small_label l) l) ->
+  let l' := topup n_min rank_other l in
+  length l' = length l /\ n_min <= count false l' /\ n_min <= count true l' /\
+  (enough n_min l = true -> l' = l) /\ (enough n_min l = false -> count (small_label l) l' = n_min).
+Proof. exact topup_ok. Qed.
+Print Assumptions C13_topup.
+(* regression witness: the rule as found (first n_min entries of the ranking of ALL points) strips the larger cluster *)
+Theorem C13_topup_asis_refuted : exists n_min rank_all l, 2 * n_min <= length l /\ Permutation rank_all (seq 0 (length l)) /\
+  count false (topup_asis n_min rank_all l) < n_min.
+Proof. exact topup_asis_refuted. Qed.
+Print Assumptions C13_topup_asis_refuted.
+
 (* non-vacuity: split (one blocked attempt first), trim, sample on six points *)
 Example C13_example :
   urun 1 (uinit 1 1%positive [1;2;3;4;5;6]%positive 10%Q) []
